@@ -13,6 +13,7 @@ FLOAT_MODE = "integers only (LIA); phases are concrete"
 def kernels(tier):
     ks = [("step", s) for s in l1.step_shapes(tier)]
     ks += [("two", s) for s in l1.two_channel_shapes(tier)]
+    ks += [("eom", s) for s in l1.eom_shapes(tier)]
     return ks
 
 
